@@ -72,6 +72,7 @@ class Builder:
 
     def ref(self, scope):
         """Name of a variable to reference at this position."""
+
         if self.cfg["naming"] == "pool":
             pool = self.cfg["pool"]
             if scope.owner is not None and self.cfg.get("extra_probe") and self.chance(15):
@@ -139,6 +140,11 @@ class Builder:
         if kind == "text":
             return {"t": "text", "s": self.fresh("t")}
         if kind == "var":
+            if scope.loops > 0 and self.chance(25):
+                # loop state must be the one at the lexical position (deferred rendering snapshots it); only printed
+                if scope.loops > 1 and self.chance(40):
+                    return self.varnode("forloop.parentloop.counter")
+                return self.varnode(self.pick(["forloop.counter", "forloop.counter0", "forloop.first", "forloop.last"]))
             return self.varnode(self.ref(scope))
         if kind == "tick":
             if has_ref and self.chance(50):
